@@ -46,3 +46,17 @@ impl<'a> RsyncRun<'a> {
         ensures rsync_module_requested(self, uri),
     { unimplemented!() }
 }
+
+// Derived impls of extracted types (derive attributes are dropped by extraction):
+// config::FallbackPolicy is `Clone, Copy, Debug, Eq, PartialEq` (structural equality).
+impl Clone for FallbackPolicy { #[verifier::external_body] fn clone(&self) -> (r: Self) ensures r == *self, { unimplemented!() } }
+impl Copy for FallbackPolicy {}
+impl PartialEqSpecImpl for FallbackPolicy {
+    open spec fn obeys_eq_spec() -> bool { true }
+    closed spec fn eq_spec(&self, other: &FallbackPolicy) -> bool { *self == *other }
+}
+impl PartialEq for FallbackPolicy {
+    #[verifier::external_body]
+    fn eq(&self, other: &Self) -> bool { unimplemented!() }
+}
+impl Eq for FallbackPolicy {}
